@@ -3,6 +3,7 @@ package rules
 import (
 	"fmt"
 	"go/ast"
+	"go/token"
 	"go/types"
 	"strings"
 
@@ -140,7 +141,9 @@ func checkC17(c *Ctx) {
 					r.Bad("R17.1", name, "callback-outside-section", c.Pos(p.Events[i].Pos), "a callback runs outside the Invalidator's critical section: accepted calls can overlap", shortTrace(p))
 				}
 				ev := p.Events[i]
-				if !(ev.CalleeVal.Kind == pw.KRangeVal && fromCallbacks(ev.CalleeVal.Src)) {
+				cv := ev.CalleeVal
+				isElem := cv.Kind == pw.KRangeVal && fromCallbacks(cv.Src) || cv.Kind == pw.KIndex && fromCallbacks(cv.Src)
+				if !isElem {
 					r.Bad("R17.3", name, "calls-other-function", c.Pos(ev.Pos), "the function called in the loop is not the ranged element of Callbacks itself", shortTrace(p))
 				}
 				if len(ev.Args) != 1 || ev.Args[0] != ctx {
@@ -193,6 +196,59 @@ func checkC17(c *Ctx) {
 	fd, _ := c.funcDecl(name)
 	info := c.Pkg.TypesInfo
 	nRange := 0
+	// index form: for j := 0; j < len(cbs); j++ { cbs[j](ctx) }
+	ast.Inspect(fd.Body, func(n ast.Node) bool {
+		fs, ok := n.(*ast.ForStmt)
+		if !ok || fs.Init == nil || fs.Cond == nil || fs.Post == nil {
+			return true
+		}
+		init, ok1 := fs.Init.(*ast.AssignStmt)
+		cond, ok2 := fs.Cond.(*ast.BinaryExpr)
+		post, ok3 := fs.Post.(*ast.IncDecStmt)
+		if !ok1 || !ok2 || !ok3 || len(init.Lhs) != 1 || len(init.Rhs) != 1 || cond.Op != token.LSS || post.Tok != token.INC {
+			return true
+		}
+		iv, ok := init.Lhs[0].(*ast.Ident)
+		zero, okz := init.Rhs[0].(*ast.BasicLit)
+		if !ok || !okz || zero.Value != "0" {
+			return true
+		}
+		iobj := info.Defs[iv]
+		lenCall, ok := cond.Y.(*ast.CallExpr)
+		if !ok || len(lenCall.Args) != 1 {
+			return true
+		}
+		if id, ok := lenCall.Fun.(*ast.Ident); !ok || id.Name != "len" {
+			return true
+		}
+		if cid, ok := cond.X.(*ast.Ident); !ok || info.Uses[cid] != iobj {
+			return true
+		}
+		sliceStr := types.ExprString(lenCall.Args[0])
+		callsElem := false
+		ast.Inspect(fs.Body, func(m ast.Node) bool {
+			if call, ok := m.(*ast.CallExpr); ok {
+				if ix, ok := ast.Unparen(call.Fun).(*ast.IndexExpr); ok && types.ExprString(ix.X) == sliceStr {
+					if id, ok := ix.Index.(*ast.Ident); ok && info.Uses[id] == iobj {
+						callsElem = true
+					}
+				}
+			}
+			return true
+		})
+		if !callsElem {
+			return true
+		}
+		nRange++
+		ast.Inspect(fs.Body, func(m ast.Node) bool {
+			switch m.(type) {
+			case *ast.IfStmt, *ast.BranchStmt, *ast.ReturnStmt, *ast.SwitchStmt, *ast.SelectStmt, *ast.GoStmt, *ast.DeferStmt, *ast.AssignStmt, *ast.IncDecStmt:
+				r.Bad("R17.3", name, "conditional-loop-body", c.Pos(m.Pos()), "the loop over the callbacks contains control flow or index manipulation: some callbacks may be skipped, spawned or deferred", nil)
+			}
+			return true
+		})
+		return true
+	})
 	ast.Inspect(fd.Body, func(n ast.Node) bool {
 		rs, ok := n.(*ast.RangeStmt)
 		if !ok || rs.Value == nil {
